@@ -71,6 +71,10 @@ NSPLIT = z3.Function("str_split_len", S, S, I)
 SPLITPART = z3.Function("str_split_part", S, S, I, S)
 STRIP = z3.Function("str_strip", S, S)
 CONV = z3.Function("convert_greek_and_symbols", S, S)   # the (pure, deterministic) function itself at call sites
+OML = z3.Function("omml_to_latex_of", El, S)            # omml_to_latex as a function of the (unmodified) tree, at call sites
+NITER = z3.Function("el_iter_len", El, S, I)            # Element.iter(tag): the element itself and its descendants with
+ITERITEM = z3.Function("el_iter_item", El, S, I, El)    # that tag, in document order, each exactly once
+ITERPOS = z3.Function("el_iter_pos", El, S, El, I)
 
 # ---- counting homomorphisms -----------------------------------------------------
 LBf = z3.Function("count_lbrace", S, I)
@@ -323,6 +327,22 @@ def m_findall(ex, st, obj, args, kwargs, node):
                       tag={"facts": facts, "findall": (e, path)}))]
 
 
+def iter_facts(e, T, k):
+    x = ITERITEM(e, T, k)
+    return [TAG(x) == T, ITERPOS(e, T, x) == k, z3.Or(x == e, DESC(x, e)), SIZE(x) >= 1, z3.Implies(NB(e), NB(x))]
+
+
+def m_iter(ex, st, obj, args, kwargs, node):
+    if len(args) != 1 or kwargs or not isinstance(args[0], VStr) or args[0].const() is None \
+            or parse_path(args[0].const())[0] != "child":
+        raise Unsupported(f"{ex.loc(node)} Element.iter form not modelled")
+    e, T = obj.t, sval(args[0].const())
+    n = NITER(e, T)
+    st.assume(n >= 0)
+    return [(st, VSeq(n, lambda k: VExt("Element", ITERITEM(e, T, k)), "Element",
+                      tag={"facts": lambda k: iter_facts(e, T, k), "iter": (e, args[0].const())}))]
+
+
 def m_get(ex, st, obj, args, kwargs, node):
     if not args or kwargs or not isinstance(args[0], VStr) or args[0].const() is None or len(args) > 2:
         raise Unsupported(f"{ex.loc(node)} Element.get with a non-constant key")
@@ -428,6 +448,7 @@ def install(reg):
     reg.method_models[("Element", "find")] = m_find
     reg.method_models[("Element", "findall")] = m_findall
     reg.method_models[("Element", "get")] = m_get
+    reg.method_models[("Element", "iter")] = m_iter
     reg.attr_models[("Element", "tag")] = a_tag
     reg.ext_models["str.split"] = m_split
     reg.ext_models["str.strip"] = m_strip
@@ -499,13 +520,23 @@ class C19Executor(Executor):
     def get_attr(self, st, base, attr, node):
         if isinstance(base, VExt) and base.sort == "Element" and attr == "text":
             e = base.t
-            a = st.fork().assume(TEXTNONE(e))
-            st.assume(z3.Not(TEXTNONE(e)))
-            t = TEXT(e)
-            for f in str_facts(t, NB(e)):
-                st.assume(f)
-            return [(a, NONE), (st, VStr(t))]
+            out = []
+            if self.feasible(st.pc, TEXTNONE(e)):            # (a second read on the same path must agree with the first)
+                out.append((st.fork().assume(TEXTNONE(e)), NONE))
+            if self.feasible(st.pc, z3.Not(TEXTNONE(e))):
+                st.assume(z3.Not(TEXTNONE(e)))
+                t = TEXT(e)
+                for f in str_facts(t, NB(e)):
+                    st.assume(f)
+                out.append((st, VStr(t)))
+            return out
         return super().get_attr(st, base, attr, node)
+
+    def b_len(self, st, args, kwargs, node):
+        if len(args) == 1 and isinstance(args[0], VExt) and args[0].sort == "Element":
+            st.assume(NCH(args[0].t) >= 0)
+            return [(st, VInt(NCH(args[0].t)))]          # len(element) = number of children
+        return super().b_len(st, args, kwargs, node)
 
     def call_method(self, st, obj, name, args, kwargs, node):
         if isinstance(obj, VRef) and st.obj(obj.ref).kind == "slist":
@@ -645,6 +676,8 @@ class C19Executor(Executor):
             o = st.heap.get(ref)
             if o is None:
                 continue
+            if self.havoc_ref(st, ref, o, nodes):
+                continue
             if ref in accs:
                 d = {k: z3.Int(fresh_name(f"acc{ref}.{k}")) for k in ("n",) + HN}
                 for k in d:
@@ -652,6 +685,10 @@ class C19Executor(Executor):
                 st.heap[ref] = HeapObj("slist", d, None, o.fresh)
             else:
                 st.heap[ref] = HeapObj("unk", None, o.cls, False)
+
+    def havoc_ref(self, st, ref, o, nodes):
+        """hook: havoc a heap object of a kind a subclass introduces; True when handled"""
+        return False
 
     def sym_loop(self, node, st, view, target, body_fn, nodes, spec, accs_extra=(), it=None):
         """invariant-cut loop over a symbolic sequence -> (non-fall outcomes + breaks, exit state)"""
@@ -1084,7 +1121,9 @@ def contracts(reg):
         target=f"{OMML}::omml_to_latex",
         params=[("omath_element", p_opt(p_ext("Element")))],
         hyps=om_hyps,
-        result_maker=lambda ex, st, c: VStr(z3.String(fresh_name("latex"))),
+        # a function of the tree (the determinism policy obligations + no mutation of the tree by its callers)
+        result_maker=lambda ex, st, c: VStr(OML(c.args["omath_element"].t)) if isinstance(c.args["omath_element"], VExt)
+        else VStr(""),
         total=True, raises=[],
         ensures=[
             ("returns-str", lambda c: z3.BoolVal(isinstance(c.result, VStr))),
@@ -1095,7 +1134,8 @@ def contracts(reg):
         loops={"*": LoopSpec(inv=conv_loop_inv)},
         note="for every tree: no exception; brace-free tree => balanced output",
     ))
-    return out
+    from contracts import C19_sites
+    return out + C19_sites.site_contracts(reg)
 
 
 # ---- ground / syntactic obligations ----------------------------------------------------
@@ -1142,7 +1182,26 @@ def tables(repo, tier):
     fo = m.functions.get("omml_to_latex")
     fp = m.functions.get("omml_to_latex.<locals>.process_element")
     if fo is not None and fp is not None:
-        allowed_globals = {"M_NS", "_SKIP_TAGS", "GREEK_TO_LATEX", "convert_greek_and_symbols", "ET"}
+        # module constants: names bound once at module level to a literal (or frozenset/tuple/dict of literals),
+        # module-level functions, and the ElementTree import used in annotations
+        def is_const(v):
+            try:
+                ast.literal_eval(v)
+                return True
+            except (ValueError, SyntaxError, TypeError):
+                return isinstance(v, ast.Call) and isinstance(v.func, ast.Name) and v.func.id in ("frozenset", "tuple") \
+                    and all(is_const(a) for a in v.args) and not v.keywords
+        stores = {}
+        for n in ast.walk(m.tree):
+            if isinstance(n, ast.Name) and isinstance(n.ctx, (ast.Store, ast.Del)):
+                stores[n.id] = stores.get(n.id, 0) + 1
+        mutated = {n.value.id for n in ast.walk(m.tree) if isinstance(n, (ast.Subscript, ast.Attribute))
+                   and isinstance(n.ctx, (ast.Store, ast.Del)) and isinstance(n.value, ast.Name)}
+        mutated |= {n.func.value.id for n in ast.walk(m.tree) if isinstance(n, ast.Call) and isinstance(n.func, ast.Attribute)
+                    and isinstance(n.func.value, ast.Name) and n.func.attr in
+                    ("append", "extend", "add", "update", "pop", "clear", "remove", "setdefault", "insert", "discard", "popitem")}
+        allowed_globals = {k for k, v in m.assigns.items() if is_const(v) and stores.get(k, 0) == 1 and k not in mutated}
+        allowed_globals |= {k for k in m.functions if "." not in k} | {"ET"}
         locs = {a.arg for a in fo.args.args} | {n.id for n in ast.walk(fo) if isinstance(n, ast.Name) and isinstance(n.ctx, ast.Store)}
         locs |= {a.arg for a in fp.args.args} | {fp.name}
         ann = set()
@@ -1201,6 +1260,31 @@ def tables(repo, tier):
         if sites:
             fns.append({"function": f"{rel}::(call sites of omml_to_latex)", "lines": [min(n.lineno for _, _, n in sites), max(n.lineno for _, _, n in sites)],
                         "file_sha256": cm.sha256, "segment_sha256": "", "obligations": 1})
+    # consumer of the pptx formula list: every (latex, is_display) pair becomes a PptxFormula with those fields
+    # and a "$$..$$" / "$..$" text entry  (syntactic; an unrecognised shape is decided by the native end-to-end run)
+    try:
+        pm = loader.module("sharepoint2text/parsing/extractors/ms_modern/pptx_extractor.py", repo)
+        fs = pm.functions.get("_process_slide_from_context")
+        loops = [n for n in ast.walk(fs) if isinstance(n, ast.For) and isinstance(n.iter, ast.Call)
+                 and dotted(n.iter.func) == "_extract_formulas_from_element"] if fs is not None else []
+        calls = [n for n in ast.walk(pm.tree) if isinstance(n, ast.Call) and dotted(n.func) == "_extract_formulas_from_element"]
+        ok = len(loops) == 1 and len(calls) == 1
+        why = f"{len(loops)} consuming loops / {len(calls)} calls"
+        if ok:
+            lp = loops[0]
+            ok = isinstance(lp.target, ast.Tuple) and len(lp.target.elts) == 2 and all(isinstance(x, ast.Name) for x in lp.target.elts)
+        if ok:
+            a, b = (x.id for x in lp.target.elts)
+            top = [ast.unparse(x) for x in lp.body]          # statements executed on every iteration
+            ok = any(t.endswith(f"append(PptxFormula(latex={a}, is_display={b}))") for t in top) \
+                and any(f"f'$${{{a}}}$$' if {b} else f'${{{a}}}$'" in t for t in top) \
+                and not any(isinstance(x, (ast.Continue, ast.Break, ast.Return)) for st_ in lp.body for x in ast.walk(st_))
+            why = "; ".join(top)[:300]
+        P("pptx_extractor.py::_process_slide_from_context/call-site#every-listed-formula-becomes-PptxFormula-and-text", ok, why)
+        if fs is not None:
+            fns.append(dict(pm.fn_info("_process_slide_from_context"), obligations=1))
+    except FileNotFoundError:
+        und.append({"obligation": "C19/pptx_extractor.py::_process_slide_from_context", "why": "contract-target-missing"})
     return {"obligations": obls, "functions": fns, "undecided": und}
 
 
@@ -1245,8 +1329,15 @@ ASSUMED_MODELS = [
 ]
 ASSUMPTIONS = ["PY-STR", "PY-EXC", "PY-REC (modular recursion; decreases on subtree size)", "TREE-FINITE",
                "PY-ORDER", "'balanced' = equal numbers of '{' and '}' (DESIGN App. B)"]
-BOUNDED = ["run texts emitted exactly once and in source order: checked natively by replay/C19.py on all schema-shaped "
+BOUNDED = ["order of the formula lists built at the docx / pptx call sites (display equations first, document order): "
+           "native comparison on the container scope of replay/C19.py::site_scope, not proved",
+           "run texts emitted exactly once and in source order: checked natively by replay/C19.py on all schema-shaped "
            "trees up to depth 2 / width 2 (small scope), not proved",
            "determinism beyond the syntactic policy obligations: double-run comparison in replay/C19.py (small scope)"]
 
 REPLAY_UNKNOWN = True    # undecided / out-of-subset items are searched natively (replay) before being reported UNDECIDED
+
+
+from contracts import C19_sites as _sites  # noqa: E402  (needs the names above)
+
+EXECUTOR = _sites.SiteExecutor
